@@ -17,7 +17,7 @@
    own process ("releasing another thread's lock is outside the contract").        *)
 From Coq Require Import List Arith NArith Bool.
 Import ListNotations.
-Require Import Aiuti.FLock Aiuti.FLockInv Aiuti.FLockTL Aiuti.FLockFD Aiuti.FLockMutex Aiuti.FLockContract Aiuti.FLockMon.
+Require Import Aiuti.FLock Aiuti.FLockInv Aiuti.FLockTL Aiuti.FLockFD Aiuti.FLockMutex Aiuti.FLockContract Aiuti.FLockMon Aiuti.FLockExact Aiuti.FLockExec Aiuti.FLockCrash.
 Require Aiuti.Case_C02.
 
 (* At most one thread is inside, whatever the configuration, the fault script and
@@ -96,6 +96,50 @@ Theorem monitor_sound :
      forall k, NoDup (inside_after (firstn k occ)) /\ length (inside_after (firstn k occ)) <= 1).
 Proof. exact monitor_sound_C02_lemma. Qed.
 Print Assumptions monitor_sound.
+
+(* The same for the line-level runs (Case_C02.CLine: every source line of aiuti/filelock.py is a
+   scheduling point; no model replay).  If the monitor accepts such a case whose programs respect
+   the contract in its static form, then at no point of the observed log are two holders inside,
+   and when all threads had finished with, by the log, nobody inside, every object reported
+   is_locked = False and the fresh non-blocking acquire of the probe succeeded. *)
+Theorem monitor_sound_line :
+  forall cfg progs results occ endcode locked_end probe km,
+    Case_C02.ok (Case_C02.CLine cfg progs results occ endcode locked_end probe km) = true ->
+    km = 0 /\
+    (Case_C02.progs_ok progs = true ->
+     (forall k, NoDup (inside_after (firstn k occ)) /\ length (inside_after (firstn k occ)) <= 1) /\
+     (endcode = 0 -> inside_after occ = [] -> (forall b, In b locked_end -> b = false) /\ probe = true)).
+Proof. exact monitor_sound_line_lemma. Qed.
+Print Assumptions monitor_sound_line.
+
+(* The model side of the end-of-run clause of the line-level monitor.  For every configuration, fault
+   script and event list (every interleaving at the model's granularity, crashes included) inside the
+   contract: whenever every thread is idle with nobody inside, every object is exactly as freshly
+   constructed as far as locking goes (no descriptor recorded = is_locked False, thread lock free, counter
+   and depth 0) and the kernel lock is free; hence an idle thread of a live process obtains the lock with
+   its first attempt, any flavour.  Proved from the exact-accounting invariant EX (FLockExact.v: inside the
+   contract the RLock depth and the lock counter of an object are exactly what its owner's thread-local
+   state accounts for, and a recorded descriptor implies a positive counter; EX_step). *)
+Theorem quiescent_clean :
+  forall ocfg tcfg fl evs,
+    let s := run (init_cfg ocfg tcfg fl) evs in
+    viol s = false ->
+    (forall t, t_pc (thr s t) = PIdle /\ t_cs (thr s t) = []) ->
+    (forall o, o_fd (objs s o) = None /\ o_own (objs s o) = None /\ o_cnt (objs s o) = 0 /\ o_dep (objs s o) = 0) /\
+    holder s = None.
+Proof. exact quiescent_clean_lemma. Qed.
+Print Assumptions quiescent_clean.
+
+Theorem quiescent_acquirable :
+  forall ocfg tcfg fl evs tF oF m blk tm poll skip fuel,
+    let s := run (init_cfg ocfg tcfg fl) evs in
+    viol s = false ->
+    (forall t, t_pc (thr s t) = PIdle /\ t_cs (thr s t) = []) ->
+    dead s (t_proc (thr s tF)) = false -> o_proc (objs s oF) = t_proc (thr s tF) ->
+    faulty s KOpen = false -> faulty s KLock = false -> 4 <= fuel ->
+    snd (do_call fuel s tF (CAcq oF m blk tm poll skip)) = RTrue.
+Proof. exact quiescent_acquirable_lemma. Qed.
+Print Assumptions quiescent_acquirable.
 
 (* The contract hypothesis is needed (and so is not vacuous): if a thread that holds
    nothing releases a plain (non-reentrant) lock that another thread holds, two
